@@ -90,12 +90,31 @@ func senderKey(i int) *common.PrivateKey {
 
 // NewUniverse builds (and, where asked, honestly signs) the transactions.
 func NewUniverse(name string, nsenders int, base []uint64, nonces [][]uint64, specs []TxSpec) *Universe {
+	return newUniverse(name, nsenders, base, nonces, specs, false)
+}
+
+// NewUniverseOrdered is NewUniverse with the senders numbered by ascending address
+// (sender 0 has the numerically lowest address): the batch order of the pool compares
+// sources numerically.
+func NewUniverseOrdered(name string, nsenders int, base []uint64, nonces [][]uint64, specs []TxSpec) *Universe {
+	return newUniverse(name, nsenders, base, nonces, specs, true)
+}
+
+func newUniverse(name string, nsenders int, base []uint64, nonces [][]uint64, specs []TxSpec, ordered bool) *Universe {
 	u := &Universe{Name: name, Specs: specs, Base: base, Nonces: nonces}
 	keys := make([]*common.PrivateKey, nsenders)
 	for s := 0; s < nsenders; s++ {
 		keys[s] = senderKey(s)
-		pk := keys[s].GetPubKey()
-		a := pk.GetAddress()
+	}
+	addrOf := func(k *common.PrivateKey) common.Address { pk := k.GetPubKey(); return pk.GetAddress() }
+	if ordered {
+		sort.Slice(keys, func(i, j int) bool {
+			a, b := addrOf(keys[i]), addrOf(keys[j])
+			return string(a[:]) < string(b[:])
+		})
+	}
+	for s := 0; s < nsenders; s++ {
+		a := addrOf(keys[s])
 		u.Addrs = append(u.Addrs, a)
 		u.Senders = append(u.Senders, a.GetHexString())
 	}
